@@ -340,7 +340,19 @@ impl StorageEngine {
             Some(stored_value) if !stored_value.is_expired() => {
                 let ttl = stored_value.metadata.expires_at
                     .map(|expires_at| expires_at.saturating_duration_since(Instant::now()));
-                Ok(Some((stored_value.value.clone(), ttl)))
+                // Cloning a sorted set only clones the Arc: copy its members so that the
+                // snapshot cannot change after the lock is released
+                let value = match &stored_value.value {
+                    Value::SortedSet(skiplist) => {
+                        let copy = SkipList::new();
+                        for (member, score) in skiplist.get_all_items() {
+                            copy.insert(member, score);
+                        }
+                        Value::SortedSet(Arc::new(copy))
+                    }
+                    other => other.clone(),
+                };
+                Ok(Some((value, ttl)))
             }
             _ => Ok(None),
         }
